@@ -734,6 +734,18 @@ def markerTransfer (_s : State) (admin frm to : Addr) (id : ScopeId) : Except Er
   if admin = "" || frm = "" || to = "" || !isScopeDenom id then .error .invalid
   else .error .notfound
 
+/-- marker `msgServer.AddFinalizeActivateMarker` / `msgServer.AddMarker` (x/marker/keeper/msg_server.go:480
+and :55) sent by an ordinary account (not the governance authority) for a marker whose denom is the
+denom of a scope token: the first thing both handlers do is `ValidateUnrestictedDenom`
+(x/marker/keeper/params.go:55), which matches the WHOLE denom against the unrestricted-denom
+expression `[a-zA-Z][a-zA-Z0-9\-\.]{2,83}`; `nft/scope1…` has a `/`, so the request is refused
+whatever its supply, marker type, access list and forced-transfer flag are (a forced-transfer flag
+on a marker that is not restricted is refused by `ValidateBasic` already).  Hence no marker ever
+exists on a scope denom, which is what `markerTransfer` and the "only the metadata module mints
+scope denoms" assumption rest on. -/
+def markerAdd (_s : State) (_signer : Addr) (_id : ScopeId) (_supply : Nat) (_restricted _forced : Bool) :
+    Except Err State := .error .invalid
+
 /-! ## x/exchange: an ask order whose assets are a scope token
 
 The harness app has one market (accepting orders, user settlement allowed, no fees, no required
@@ -833,6 +845,7 @@ inductive Op where
   | mwithdraw (marker admin to : Addr) (ids : List ScopeId)
   | msend (frm : Addr) (outs : List (Addr × List ScopeId))
   | mtransfer (admin frm to : Addr) (id : ScopeId)
+  | mkadd (signer : Addr) (id : ScopeId) (supply : Nat) (restricted forced : Bool)
   | fund (addr : Addr) (denom : Denom) (amount : Nat)
   | grant (granter grantee : Addr) (mt : MsgType) (count : Nat)
   | revoke (granter grantee : Addr) (mt : MsgType)
@@ -852,6 +865,7 @@ def exec (s : State) : Op → Except Err State
   | .mwithdraw marker admin to ids => markerWithdraw s marker admin to ids
   | .msend frm outs => bankMultiSend s frm outs
   | .mtransfer admin frm to id => markerTransfer s admin frm to id
+  | .mkadd signer id supply r f => markerAdd s signer id supply r f
   | .fund a d n => fundAccount s a d n
   | .grant granter grantee mt count => .ok (saveGrant s ⟨granter, grantee, mt, count⟩)
   | .revoke granter grantee mt => deleteGrant s granter grantee mt
